@@ -10,7 +10,7 @@ pub const SIGMA1: &[u8] = b"<>/!?-[]'\" a=";
 /// small lengths
 pub const TOKENS: &[&[u8]] = &[
     b"<a", b"</a", b"<b", b">", b"/>", b"<!--", b"-->", b"--", b"-", b"<![CDATA[", b"]]>", b"]]", b"]", b"<?", b"?>", b"?", b"xml", b"<!DOCTYPE", b"<!d", b"<", b"'", b"\"", b" ", b"x", b"=", b"[",
-    b"\xEF\xBB\xBF",
+    b"\xEF\xBB\xBF", b"\t", b"\n",
 ];
 
 /// number of strings of length <= n over an alphabet of size a
@@ -72,6 +72,9 @@ pub const FRAGMENTS: &[&[u8]] = &[
     b"<?pi?>", b"<?pi d?>", b"<?xml version='1.0'?>", b"<?xml?>", b"<?xmlx?>", b"<?p ?>?>", b"<?p >?>", b"<??>", b"<?>",
     b"<!DOCTYPE r>", b"<!doctype r>", b"<!DOCTYPE>", b"<!DOCTYPE >", b"<!DOCTYPE r [<!ENTITY e 'v'>]>", b"<!DOCTYPE r [<!ELEMENT r (#PCDATA)><!-- c -->]>", b"<!DOCTYPEr>",
     b"text", b" ", b"\t", b"\r\n", b"\n", b"  x  ", b"&amp;", b"&lt;", b"&#x41;", b"&#65;", b"&unknown;", b"&", b";", b"\xc3\xa9", b"\xe2\x82\xac",
+    b"<a\tk=\"v\">", b"<a\r\n/>", b"<a\nb>", b"</a\r>", b"<?xml\tversion='1.0'?>", b"<?xml\n?>", b"<?xml\r?>", b"<?pi\tx?>", b"<?xmlns?>", b"<a k='>' j=\">\">", b"<a k=\">\" j='>'>", b"<a k='\"' j=\"'\"/>", b"<a k=\"'>'\">",
+    b"<![CDATA[]]]>", b"<![CDATA[]>]]>", b"<![CDATA[]]]]]>", b"<![CDATA[>]]]>", b"<!--->-->", b"<!---->-->", b"<!-- -- -->", b"<!--a-b-c-->", b"<?p ? ?>", b"<?p ?>x?>", b"<!DOCTYPE r [<!ELEMENT r (a|<b <c>>)>]>", b"<!DOCTYPE r [<<>><>]>", b"<!DOCTYPE\tr>", b"<!DOCTYPE\nr >",
+    b"<!DoCtYpE r>", b"<a/ >", b"<a //>", b"<a/b/>", b"</a/>", b"< a>", b"<a k=v/>",
     b"<a:b>", b"</a:b>", b"<a xmlns='u'>", b"<p:a xmlns:p=\"u\">", b"<![", b"<!-", b"<!D", b"<!DOCTYP", b"<![CDATA", b"!", b"/", b"\xEF\xBB\xBF",
 ];
 
